@@ -68,22 +68,29 @@ def text_layout(ctx, r, F):
         for name, env in envs:
             ref = ref_text_layout(env, mode)
             seen = {}
+            lit = {}
             for (s, e, kind, src, ln) in rec["writes"]:
                 s0 = layout.ceval(s, env)
                 if kind.startswith("literal"):
-                    if not (mode == "WithVersion" and s0 == 0 and layout.ceval(e, env) == 2 and kind == "literal:5431"):
-                        bad.append("%s: literal write %s at %s" % (name, kind, s0))
+                    # literal bytes, however written: copy_from_slice(b"T1") or element stores of b'T', b'1'
+                    hexs = kind.split(":", 1)[1] or ""
+                    for j in range(0, len(hexs), 2):
+                        if s0 is None or (s0 + j // 2) in lit:
+                            bad.append("%s: literal write %s at %s" % (name, kind, s0))
+                        else:
+                            lit[s0 + j // 2] = int(hexs[j:j + 2], 16)
                     continue
                 if src is None or src in seen:
                     bad.append("%s: write of %s (%s) at %s" % (name, src, kind, s0))
                     continue
                 seen[src] = (s0, kind)
+            want_lit = {0: 0x54, 1: 0x31} if mode == "WithVersion" else {}
+            if lit != want_lit:
+                bad.append("%s: literal bytes written %s; reference %s" % (name, {k: hex(v) for k, v in sorted(lit.items())}, {k: hex(v) for k, v in want_lit.items()} or "none"))
             for fld, (a, b2) in ref.items():
                 g = seen.get(fld)
                 if g is None or g[0] != a or g[1] not in kinds[fld]:
                     bad.append("%s: field %s written at %s with %s; reference offset %d with %s" % (name, fld, g and g[0], g and g[1], a, kinds[fld][0]))
-            if mode == "WithVersion" and not any(k.startswith("literal") for (_, _, k, _, _) in rec["writes"]):
-                bad.append("%s: prefix literal not written" % name)
         ctx.ob(r, ("store_into_str_bytes/" + mode, "field-windows"), not bad, "; ".join(bad[:3]), cfg=F.key, where=W["body"].where())
     # ---- reader
     ok_paths = [p for p in R["paths"] if p["ret"][0] == "agg" and p["ret"][1].endswith("Result::Ok")]
